@@ -362,6 +362,7 @@ func registerIntrinsics(e *Engine) {
 	})
 
 	registerStrings(e)
+	registerNumParse(e)
 	registerSync(e)
 	registerContext(e)
 	registerJSON(e)
